@@ -140,7 +140,7 @@ def _moments(n, dim, tier):
 
     @obligation("C18", f"moments{N}", ensures=[f"O-C18-moments.mean{N}", f"O-C18-moments.cov{N}", f"O-C18-moments.symmetric-psd{N}"],
                 fns=[AF + "AdaptiveFilter._compileUpdateStep", AF + "AdaptiveFilter._compileForecastStep", AF + "AdaptiveFilter._compilePredictStep", ST + "eciStack"],
-                mode="R", tier=tier, bounded=f"{n} models, state dimension {dim}", timeout_ms=40000,
+                mode="R", tier=tier, bounded=f"{n} models, state dimension {dim}", timeout_ms=(150000 if (n, dim) == (3, 2) else 40000),
                 note="combined estimate = probability-weighted mean, combined covariance = sum w_i (P_i + (x_i - xbar)(x_i - xbar)^T) (moment matching), symmetric and positive semi-definite for symmetric PSD P_i and weights >= 0 summing to one; same for the predicted moments")
     def h(vc):
         w = _weights(vc, n)
